@@ -41,6 +41,7 @@ import (
 	"syscall"
 	"time"
 
+	"verifharness/cosign"
 	"verifharness/dmg"
 	"verifharness/macho"
 	"verifharness/magic"
@@ -691,6 +692,8 @@ func opFunc(fields []string) (func() string, int) {
 			n = len(fields[2]) / 2
 		}
 		return func() string { return xap.Handle(fields[1:]) }, n
+	case "COSIGN", "CAT":
+		return func() string { return cosign.Route(fields) }, cosign.InputLen(fields)
 	case "APKBLK", "CSBLOB", "XAPSIG", "BINLOAD":
 		if len(fields) != 3 {
 			return nil, 0
